@@ -146,3 +146,35 @@ for _d in (1, 2, 3):
                       "implies(result and maxdepth_is_one, t.previous_token_hash == GEN)".replace("maxdepth_is_one", str(_d == 1))],
              bounded=f"maxdepth = {_d} (loop unrolled)",
              note="verify succeeds only for a verified token whose parent is genesis or a stored token (chain checked by get_root_path)")
+
+# ---------------------------------------------------------------------------------------------------------------------
+# reloading a public serialisation: EVERY token of the blob is offered to the tree, whatever happened to the ones before it (a token
+# that has to wait for its parent, or a forged one, must not hide the rest), and the verdict is the conjunction
+def acc(t):
+    return uf_bool("accepted", t.previous_token_hash, t.content_hash, t.signature)
+
+
+def acc_chunk(c):
+    return uf_bool("accepted", c[:32], c[32:64], c[64:])
+
+
+def is_chunk(t, c):
+    return t.previous_token_hash == c[:32] and t.content_hash == c[32:64] and t.signature == c[64:]
+
+
+for _k in (0, 1, 2, 3):
+    _chunks = [f"c{i}" for i in range(_k)]
+    contract(f"{TT}::TokenTree.unserialize_public", f"unserialize_public.offers-every-token[{_k}]",
+             vars={"PKB": BYTES, **{c: BYTES_N(128) for c in _chunks},
+                   "tree": OBJ(f"{TT}::TokenTree", public_key=PK, genesis_hash=BYTES_N(32), _logger=LOGGER())},
+             requires=["tree.public_key.ec.bin == PKB"],
+             call="tree.unserialize_public(" + (" + ".join(_chunks) if _chunks else "b''") + ")", raises=[],
+             stubs={"ipv8/keyvault/public/openssl.py::OpenSSLPK.get_signature_length": {"returns": "64", "note": "curve25519 signatures (A3)"},
+                    f"{TT}::TokenTree.gather_token": {"event": "gather", "returns": "token if acc(token) else None",
+                                                     "note": "own contracts above; accepts or parks/rejects"}},
+             ensures=[f"len(calls('gather')) == {_k}",
+                      "all(is_chunk(calls('gather')[i].args[1], [" + ", ".join(_chunks) + "][i]) for i in range(len(calls('gather'))))",
+                      "result == all(acc_chunk(c) for c in [" + ", ".join(_chunks) + "])"],
+             bounded=f"blob of {_k} tokens (64-byte signatures)",
+             note="each 128-byte chunk becomes one offered token (previous hash, content hash, signature), in order; the result says "
+                  "whether all of them were accepted")
